@@ -106,7 +106,11 @@ def validate(prop, trace, scen_path, outcome, spec="LedgerTrace", timeout=3000):
         log(res["out"][-3000:])
         raise ToolError("TLC produced no verdict for %s" % trace)
     listed = known_keys(prop)
-    for k in known:
+    if prop == "C15":
+        # C15 evaluates the clauses of C03-C11 on every flag set: their recorded findings apply to it as well
+        for q in ("C03", "C04", "C05", "C06", "C07", "C08", "C09", "C10", "C11"):
+            listed.update(known_keys(q))
+    for k in sorted(set(known)):
         if k in listed:
             outcome.known.append("%s: %s" % (k, listed[k]["title"]))
         else:
